@@ -129,12 +129,20 @@ CLAIMS = {
         "mtime granularity <= 1 s; nothing required while mtime(source) <= mtime(cache); a rebuild of a damaged entry is demanded only when the documented switches enable the cache and the directory is writable; bit flips that still unmarshal are undetectable.",
         "DESIGN.md §3 C19",
     ),
+    "C09": (
+        "fault_enumeration",
+        "bounded-exhaustive enumeration of pipeline shapes, each run 3x in its own forked process with a before/after process-state snapshot, plus single-fault enumeration over every logged acquisition call",
+        "crashx",
+        "Every pipeline shape within the stated bounds (1-2 stages, thorough 3; 11-15 stage kinds incl. missing command, non-executable file, directory, raising / exiting / early-exiting aliases; 5 capture forms; 5 redirects; early-exit producer/consumer shapes) is executed three times through the real Execer in its own forked process; open fds (by kind), threads, children and zombies, cwd, sys.std*, signal handlers, environment and a behavioural Ctrl-C probe are compared before, after one and after three repetitions. For every 1- and 2-stage shape each logged acquisition (os.pipe, openpty, redirect open, Popen with 3 errors, Thread.start) is failed in turn in a fresh process and the same snapshot oracle applied.",
+        "No controlling terminal in the case process (terminal hand-over not exercised); single faults only; races between stage threads are observed in real time, not enumerated: a scheduling-sensitive observation counts only when reproduced 3 out of 3; fds a finalizer closes are counted after gc.collect().",
+        "DESIGN.md §3 C09",
+    ),
 }
 
 NOT_YET = "check not built yet (work in progress in this round; see DESIGN.md §3 for the planned exploration)"
 
 ENGINES = [
-    {"name": "crashx", "path": "xv/crashx.py", "serves_properties": ["C13", "C19"], "kind_free_text": "records the file-operation log of a write history through shims bound into the module under test, then enumerates every crash point, torn write and failing call in forked children; strace syscall injection for libsqlite3"},
+    {"name": "crashx", "path": "xv/crashx.py", "serves_properties": ["C09", "C13", "C19"], "kind_free_text": "records the file-operation log of a write history through shims bound into the module under test, then enumerates every crash point, torn write and failing call in forked children; strace syscall injection for libsqlite3"},
     {"name": "pysched", "path": "xv/pysched.py", "serves_properties": ["C06", "C11", "C12"], "kind_free_text": "stateless preemption-bounded exploration of real CPython threads: baton scheduler, line-event scheduling points in named functions, cooperative Lock/Condition/sleep/join shims, DFS over choice prefixes with replay-divergence detection"},
     {"name": "seqx", "path": "xv/seqx.py", "serves_properties": ["C08", "C10", "C11", "C12", "C16", "C19", "C20"], "kind_free_text": "explicit-state breadth-first search whose transitions call the real entry points on a freshly replayed implementation; canonical state hashing; lock-step reference"},
     {"name": "gramx", "path": "xv/", "serves_properties": ["C04", "C05", "C07", "C14", "C15", "C17"], "kind_free_text": "bounded-exhaustive enumeration of structured inputs run through the real implementation, compared with a reference"},
